@@ -71,6 +71,31 @@ pub mod shim {
     pub open spec fn set_bytes(s: Seq<u8>, o: int, b: Seq<u8>) -> Seq<u8> {
         Seq::new(s.len(), |i: int| if o <= i < o + b.len() { b[i - o] } else { s[i] })
     }
+    /*PROVED_IN:u_pnet*/ pub proof fn lemma_u32_split(v: u32)
+        ensures (v as int / 16777216) * 16777216 + ((v as int / 65536) % 256) * 65536 + ((v as int / 256) % 256) * 256 + v as int % 256 == v,
+                v as int / 16777216 < 256
+    {
+        let a = v as int / 65536; let b = v as int % 65536;
+        assert(v as int == a * 65536 + b);
+        assert(a / 256 == v as int / 16777216) by(nonlinear_arith) requires a == v as int / 65536;
+        assert(b / 256 == (v as int / 256) % 256) by(nonlinear_arith) requires b == v as int % 65536, v >= 0;
+        assert(b % 256 == v as int % 256) by(nonlinear_arith) requires b == v as int % 65536, v >= 0;
+    }
+    /*PROVED_IN:u_pnet*/ pub proof fn lemma_be32_set32(s: Seq<u8>, o: int, v: u32)
+        requires 0 <= o, o + 4 <= s.len()
+        ensures be32(set32(s, o, v), o) == v
+    {
+        lemma_u32_split(v);
+        let t = set32(s, o, v);
+        assert(t[o] == (v / 16777216) as u8 && t[o + 1] == ((v / 65536) % 256) as u8 && t[o + 2] == ((v / 256) % 256) as u8 && t[o + 3] == (v % 256) as u8);
+    }
+    /*PROVED_IN:u_pnet*/ pub proof fn lemma_be16_set16(s: Seq<u8>, o: int, v: u16)
+        requires 0 <= o, o + 2 <= s.len()
+        ensures be16(set16(s, o, v), o) == v
+    {
+        let t = set16(s, o, v);
+        assert(t[o] == (v / 256) as u8 && t[o + 1] == (v % 256) as u8);
+    }
     pub open spec fn zeros(n: nat) -> Seq<u8> { Seq::new(n, |i: int| 0u8) }
 
     // ---------------------------------------------------------------- addresses
@@ -93,13 +118,26 @@ pub mod shim {
     pub broadcast proof fn axiom_ip6_from(b: Seq<u8>)
         requires b.len() == 16
         ensures #[trigger] ip6_octets(ip6_from(b)) == b {}
-    pub broadcast group group_ip_axioms { axiom_ip4_octets, axiom_ip4_from, axiom_ip6_octets, axiom_ip6_from }
+    pub broadcast group group_ip_axioms { axiom_ip4_octets, axiom_ip4_from, axiom_ip6_octets, axiom_ip6_from, axiom_ipaddr_eq, axiom_ip4addr_eq, axiom_ip6addr_eq }
 
     pub assume_specification [Ipv4Addr::octets] (a: &Ipv4Addr) -> (r: [u8; 4])
         ensures r@ == ip4_octets(*a);
     pub assume_specification [Ipv6Addr::octets] (a: &Ipv6Addr) -> (r: [u8; 16])
         ensures r@ == ip6_octets(*a);
 
+    /// std `PartialEq` of the address types is structural equality (trusted).
+    #[verifier::external_body]
+    pub broadcast proof fn axiom_ipaddr_eq()
+        ensures #[trigger] <IpAddr as vstd::std_specs::cmp::PartialEqSpec>::obeys_eq_spec(),
+            forall|a: IpAddr, b: IpAddr| #[trigger] <IpAddr as vstd::std_specs::cmp::PartialEqSpec>::eq_spec(&a, &b) == (a == b) {}
+    #[verifier::external_body]
+    pub broadcast proof fn axiom_ip4addr_eq()
+        ensures #[trigger] <Ipv4Addr as vstd::std_specs::cmp::PartialEqSpec>::obeys_eq_spec(),
+            forall|a: Ipv4Addr, b: Ipv4Addr| #[trigger] <Ipv4Addr as vstd::std_specs::cmp::PartialEqSpec>::eq_spec(&a, &b) == (a == b) {}
+    #[verifier::external_body]
+    pub broadcast proof fn axiom_ip6addr_eq()
+        ensures #[trigger] <Ipv6Addr as vstd::std_specs::cmp::PartialEqSpec>::obeys_eq_spec(),
+            forall|a: Ipv6Addr, b: Ipv6Addr| #[trigger] <Ipv6Addr as vstd::std_specs::cmp::PartialEqSpec>::eq_spec(&a, &b) == (a == b) {}
     /// std `Hash`/`Eq` of IpAddr are lawful (trusted).
     #[verifier::external_body]
     pub broadcast proof fn axiom_ipaddr_key_model()
